@@ -53,12 +53,14 @@ static void do_hist(vf_case *c) {
 /* ---------------------------------------------------------------- (b) two contexts */
 static ctx_t CA, CB;
 /* per-context programs: sequences of step codes: i init, 0..5 select prime curve, b battery, t throw, g get_code, c clean+init */
-static const char *PROGS[][2] = {{"i0btgb", "i4bg2b"}, {"i5bbt", "i1tgb3b"}, {"i2bc4b", "i3btb"}};
+static const char *PROGS[][2] = {{"i0btgb", "i4bg2b"}, {"i5bbt", "i1tgb3b"}, {"i2bc4b", "i3btb"}, {"itcg0b", "i1tcgb"}};
 static void step(ctx_t *cx, char op, uint64_t *obs, int *nobs, int *have) {
 	core_set(cx); int th;
 	switch (op) { case 'i': if (core_init() != RLC_OK) exit(2); *have = 0; break; case 'c': core_clean(); core_set(cx); /* core_clean detaches the context */ if (core_init() != RLC_OK) exit(2); *have = 0; break;
 		case 'b': obs[(*nobs)++] = *have ? battery(1, 0) : 1; break; case 't': th = 0; RLC_TRY { RLC_THROW(ERR_NO_VALID); } RLC_CATCH_ANY { th = 1; } obs[(*nobs)++] = 100 + (uint64_t)th; break; /* the sticky code stays set in THIS context */ case 'g': obs[(*nobs)++] = 200 + (uint64_t)err_get_code(); break;
 		default: sel_ep(op - '0'); *have = 1; break; }
+	/* absolute, not differential: a context that has just been initialised (for the first time or again after core_clean) reads as success */
+	if ((op == 'i' || op == 'c') && core_get()->code != RLC_OK) vf_fail(NULL, "core_init leaves the sticky error code %d set in a caller-supplied context (step '%c')", core_get()->code, op);
 	transitions++;
 }
 static void do_ctx(vf_case *c) {
@@ -82,7 +84,7 @@ static void enumerate(void) {
 	for (int L = 1; L <= maxl; L++) { char bn[32]; snprintf(bn, sizeof bn, "histories-of-length-%d", L); if (!vf_bound_on(bn)) continue; long tot = 1; for (int i = 0; i < L; i++) tot *= NACT;
 		for (long idx = 0; idx < tot && !vf_expired(); idx++) { if (!vf_mine()) continue; long v = idx; K.op = "hist"; K.n = 1 + L; mpz_set_si(K.v[0], L); int last_sel = 0; for (int i = 0; i < L; i++) { mpz_set_si(K.v[1 + i], v % NACT); if (v % NACT < 8) last_sel = 1; v /= NACT; } (void)last_sel; vf_stat_add("states", 1); vf_run(&K); }
 		vf_bound_done(bn); }
-	if (vf_bound_on("two-contexts-all-interleavings")) { for (int pp = 0; pp < 3; pp++) { int la = (int)strlen(PROGS[pp][0]), lb = (int)strlen(PROGS[pp][1]), n = la + lb;
+	if (vf_bound_on("two-contexts-all-interleavings")) { for (int pp = 0; pp < 4; pp++) { int la = (int)strlen(PROGS[pp][0]), lb = (int)strlen(PROGS[pp][1]), n = la + lb;
 			for (unsigned long mask = 0; mask < (1UL << n) && !vf_expired(); mask++) { if (__builtin_popcountl(mask) != lb) continue; if (!vf_mine()) continue; K.op = "ctx"; K.n = 2; mpz_set_si(K.v[0], pp); mpz_set_ui(K.v[1], mask); vf_stat_add("states", 1); vf_run(&K); } }
 		vf_bound_done("two-contexts-all-interleavings"); }
 	vf_stat_add("transitions", transitions);
